@@ -6,6 +6,7 @@ import FitProps.C13
 import FitProps.C14
 import FitProps.C16
 import FitProps.LinksApi
+import FitProps.DecoderApiOverrunLemmas
 import FitProps.DecoderApiDefaultLemmas
 /-!
 # C03 — Decoding arbitrary bytes never panics, hangs or fakes success
@@ -15,7 +16,7 @@ that the driver runs against the real code (families `decapi`, `dechist`). They 
 option combination, every factory table and every sequence of API calls.
 
 PROPERTY THEOREMS (audited by ./check): C03_no_panic, C03_no_hang, C03_sticky, C03_error_sticks, C03_sticky_run,
-C03_no_fake_success, C03_no_fake_success_msgs, C03_no_fake_success_clean, C03_no_panic_ops_any_reader, C03_default_config_total, C03_ctx_cancel, C03_ctx_no_fake_success, C03_raw_total, C03_readbuffer_total, C03_listener_total, C03_consts
+C03_no_fake_success, C03_last_record_starts_inside, C03_no_fake_success_msgs, C03_no_fake_success_clean, C03_no_panic_ops_any_reader, C03_default_config_total, C03_ctx_cancel, C03_ctx_no_fake_success, C03_raw_total, C03_readbuffer_total, C03_listener_total, C03_consts
 -/
 namespace Fit.C03
 open Fit.DecApi
@@ -97,6 +98,20 @@ theorem C03_no_fake_success (o : Opts) (bytes : List Nat) (hb : IsBytes bytes) (
       f.hdr.dataSize ≤ recs.length ∧ f.crc = c0 + 256 * c1 ∧ (o.chk = true → Fit.Crc.write 0 recs = f.crc) :=
   (decode_fresh_accepted o bytes hb hf hlen s' f evs h).split
 
+/-- **No fake success, the bound on the overrun.** The record bytes `recs` of `C03_no_fake_success` may be longer than the
+declared data size — the code lets the LAST record run past it (KF-C07-4 is about what that does to the next sequence). This
+theorem bounds it: `recs = recs₀ ++ last` where `last` is exactly ONE record — what a single `decodeMessage` consumed, from the
+decoder state `sl` reached by reading `recs₀` — and that record STARTS strictly inside the declared data size:
+`|recs₀| < dataSize ≤ |recs₀| + |last|`. So the overrun `|recs| − dataSize` is less than the length of one record (at most
+1 + 255·255 + 255·255 bytes for a data record with 255 fields and 255 developer fields of 255 bytes; 1537 for a definition),
+at least one record was read, and the two CRC bytes follow that record immediately. -/
+theorem C03_last_record_starts_inside (o : Opts) (bytes : List Nat) (hb : IsBytes bytes) (hf : FacOK o.fac) (hlen : bytes.length < 4294967296)
+    (s' : St) (f : Fit) (evs : List Event) (h : stepDecode (St.fresh o bytes) = (s', .fit f, evs)) :
+    ∃ hdr recs₀ last c0 c1 sl sf ev, bytes = hdr ++ recs₀ ++ last ++ [c0, c1] ++ s'.rest ∧ HdrOK o.chk 0 hdr f.hdr ∧
+      recs₀.length < f.hdr.dataSize ∧ f.hdr.dataSize ≤ recs₀.length + last.length ∧
+      sl.rest = last ++ sf.rest ∧ sf.rest = [c0, c1] ++ s'.rest ∧ decodeMessage sl = .ok (sf, ev) :=
+  decode_fresh_last o bytes hb hf hlen s' f evs h
+
 /-- **No fake success, the messages.** `C03_no_fake_success` constrains the framing (header, a byte string `recs` covering
 the declared data size, CRC); this theorem says what the RETURNED MESSAGES are. If `Decode` on a new decoder returns a FIT,
 then the reader-client model (D) (`DecProg.decodeLoop`, one sequence: header, `for d.cur < dataSize { decodeMessage }`,
@@ -108,8 +123,8 @@ value-level functions applied to the bytes those record events carry and to noth
 returned FIT comes from anywhere but a record that was read in full inside the loop over the declared data size, in
 order, and none of those records is missing. Hypotheses beyond `C03_no_fake_success`: the factory is in the common domain
 of the two models (`facBtOK`: valid base types; `facFdOK`: the three fields of field_description as in the profile —
-`Link_stdFactory_ok`: met by the regenerated standard factory). NOT in this statement: an explicit bound on how far the
-last record may run past the declared data size (it is less than one record; KF-C07-4 is about that overrun). -/
+`Link_stdFactory_ok`: met by the regenerated standard factory). How far the last record may run past the declared data size:
+`C03_last_record_starts_inside`. -/
 theorem C03_no_fake_success_msgs (o : Opts) (bytes : List Nat) (hb : IsBytes bytes) (hf : FacOK o.fac) (hlen : bytes.length < 4294967296)
     (hbt : Fit.Link.facBtOK o.fac = true) (hfd : Fit.Link.facFdOK o.fac = true)
     (s' : St) (f : Fit) (evs : List Event) (h : stepDecode (St.fresh o bytes) = (s', .fit f, evs)) :
